@@ -169,6 +169,8 @@ F('url_parse_scheme_0', U + 'parse_scheme', cls='url', mangled=r'_ZN3ada3url12pa
 F('url_set_host_or_hostname_0', U + 'set_host_or_hostname', cls='url', mangled=r'_ZN3ada3url20set_host_or_hostnameILb0EEE.*', targs='false')
 F('url_set_host_or_hostname_1', U + 'set_host_or_hostname', cls='url', mangled=r'_ZN3ada3url20set_host_or_hostnameILb1EEE.*', targs='true')
 F('usp_sort', 'ada::url_search_params::sort', cls='usp')
+for _m in ['reset', 'initialize', 'append', 'size']:
+    F('usp_' + _m, 'ada::url_search_params::' + _m, cls='usp')
 F('idna_ascii_map', 'ada::idna::ascii_map')
 F('idna_is_ascii_sv', 'ada::idna::is_ascii', mangled=r'_ZN3ada4idna8is_asciiESt17basic_string_viewIcSt11char_traitsIcEE')
 F('idna_is_ascii_u32', 'ada::idna::is_ascii', mangled=r'_ZN3ada4idna8is_asciiESt17basic_string_viewIDiSt11char_traitsIDiEE')
